@@ -285,8 +285,16 @@ def _templates(model, rep, mod, ci, gen):
                 sub = dict(env)
                 for p, a in zip(params, e.args):
                     sub[p] = ev(a, env)
-                ret = [n for n in ast.walk(h) if isinstance(n, ast.Return)]
-                return ev(ret[0].value, sub)
+                # locals of the helper bound to a template (tag = format_single(...)) are written out; a helper with several
+                # returns (early return, memo hit / miss) is a template only if all resolved returns agree
+                for a in ast.walk(h):
+                    if isinstance(a, ast.Assign) and isinstance(a.targets[0], ast.Name) and a.targets[0].id not in sub:
+                        v = ev(a.value, sub)
+                        if re.search(r'[A-Za-z][A-Za-z0-9]*:|[\^\-]', v) and v != '#':
+                            sub.setdefault(a.targets[0].id, v)
+                vals = {ev(n.value, sub) for n in ast.walk(h) if isinstance(n, ast.Return) and n.value is not None}
+                vals.discard('#')
+                return vals.pop() if len(vals) == 1 else '#'
         return '#'
 
     markers = {}
@@ -298,6 +306,9 @@ def _templates(model, rep, mod, ci, gen):
         markers[ttype] = (tuple(sorted(re.findall(r'[A-Za-z][A-Za-z0-9]*:', t))), t)
     seen = {}
     for ttype, (mk, t) in markers.items():
+        if not mk:
+            rep.undecided("generatetags: the literal template of the %s tags could not be written out ('%s')" % (ttype, t))
+            continue
         dup = seen.get(mk)
         rep.ob('template-disjoint', mod, gen[ttype], "%s tags look like '%s' (markers %s)" % (ttype, t, list(mk)), dup is None and bool(mk),
                '' if dup is None and mk else 'same literal markers as type %s: a tag of one type can equal a tag of the other' % dup,
